@@ -402,9 +402,16 @@ pub fn exec_job(job: &Job, faults: &[Fault], env: &ExecEnv, server: Option<SimFi
 
 fn fresh_server(job: &Job, faults: &[Fault], env: &ExecEnv) -> SimFileServer {
     let mut fs = SimFileServer::new(job.disk.clone(), faults.to_vec(), env.sched.clone());
-    fs.add_placeholder_handles(env.handle_offset);
+    // handle layout = how many unrelated handles the host registered first
+    // (low four bits) and in which order it registered the built-in library
+    // (the rest: a rotation of the table; which library file gets the lowest
+    // handle depends on the host's build, not on the program)
+    fs.add_placeholder_handles(env.handle_offset % 16);
     if job.use_std {
-        fs.add_std_files(STD_FILES);
+        let mut table = STD_FILES.to_vec();
+        let rot = (env.handle_offset / 16) % table.len().max(1);
+        table.rotate_left(rot);
+        fs.add_std_files(&table);
     }
     fs
 }
